@@ -13,10 +13,12 @@ package wal
 //@   ensures[C08] err != nil ==> result0 == nil
 //@ func ReuseWAL
 //@   ensures[C08] err == nil && result0 != nil ==> fresh(result0) && result0.nextSequence == nextSeq
+//@   ensures[C10] err == nil && result0 != nil ==> walScans > old(walScans) && walScanBad == old(walScanBad)
 //@   ensures[C08] err != nil ==> result0 == nil
 
 //@ func (*WAL).Append
-//@   modifies w.nextSequence, w.bytesWritten, w.batchByteSize, w.overflowWarning, w.lastSync
+//@   modifies w.nextSequence, w.bytesWritten, w.batchByteSize, w.overflowWarning, w.lastSync, wrlen, wrbytes, walLastType
+//@   ensures[C09]     err == nil ==> walLastType == RecordTypeFull || walLastType == RecordTypeLast
 //@   ensures[C08]     w.nextSequence >= old(w.nextSequence)
 //@   ensures[C08,C01] err == nil ==> result0 == old(w.nextSequence) && w.nextSequence == old(w.nextSequence) + 1
 //@   ensures[C08]     err == nil ==> result0 < MaxSequenceNumber
@@ -25,7 +27,7 @@ package wal
 
 // A batch consumes exactly one sequence number, shared by its entries; an empty batch consumes none.
 //@ func (*WAL).AppendBatch
-//@   modifies w.nextSequence, w.bytesWritten, w.batchByteSize, w.overflowWarning, w.lastSync, w.writer, all(Mem byte)
+//@   modifies w.nextSequence, w.bytesWritten, w.batchByteSize, w.overflowWarning, w.lastSync, w.writer, all(Mem byte), wrlen, wrbytes, walLastType
 //@   ensures[C08]     w.nextSequence >= old(w.nextSequence)
 //@   ensures[C08]     err == nil && len(entries) == 0 ==> result0 == old(w.nextSequence) && w.nextSequence == old(w.nextSequence)
 //@   ensures[C08,C01] err == nil && len(entries) > 0 ==> result0 == old(w.nextSequence) && w.nextSequence == old(w.nextSequence) + 1
@@ -42,17 +44,44 @@ package wal
 //@   ensures[C06] err == ErrWALRotating ==> w.status == WALStatusRotating
 //@   ensures[C06] err == ErrWALClosed ==> w.status == WALStatusClosed
 //@   ensures[C06] err != ErrInvalidOpType && err != ErrSequenceOverflow
+// C09 (writer side): the payload handed to writeRawRecord is exactly the entry layout that parseEntryData decodes.
+//@ predicate EntryLayout(d []byte, t uint8, seq uint64, k []byte, v []byte) = len(d) == 13 + len(k) + ite(t != OpTypeDelete, 4 + len(v), 0) && d[0] == t && le64(d, 1) == seq && le32(d, 9) == len(k) && bstr(d[13:13+len(k)]) == bstr(k) && (t != OpTypeDelete ==> le32(d, 13+len(k)) == len(v) && bstr(d[17+len(k):17+len(k)+len(v)]) == bstr(v))
 //@ func (*WAL).writeRecord
-//@   modifies w.bytesWritten, w.batchByteSize
+//@   modifies w.bytesWritten, w.batchByteSize, wrlen, wrbytes, walLastType
+//@   ensures[C09] err == nil ==> walLastType == recordType
+//@   check[C09] before call (*WAL).writeRawRecord#1: arg_recordType == recordType
+//@   check[C09] before call (*WAL).writeRawRecord#1: EntryLayout(arg_data, entryType, seqNum, key, value)
 //@   ensures[C06] err != ErrWALRotating && err != ErrWALClosed && err != ErrInvalidOpType && err != ErrSequenceOverflow
+// Fragmented entries: FIRST (13 header bytes + the key prefix that fits), MIDDLE* (full-sized), LAST (1..32K bytes); the
+// LAST record that closes the entry is always written (walLastType: type of the last record written successfully).
+//@ ghost global walLastType int
 //@ func (*WAL).writeFragmentedRecord
-//@   modifies w.bytesWritten, w.batchByteSize
+//@   requires 13 + len(key) + ite(entryType != OpTypeDelete, 4 + len(value), 0) > MaxRecordSize
+//@   modifies w.bytesWritten, w.batchByteSize, wrlen, wrbytes, walLastType
+//@   check[C09] before call (*WAL).writeRawRecord#1: arg_recordType == RecordTypeFirst && len(arg_data) == 13 + min(len(key), MaxRecordSize - 13) && arg_data[0] == entryType && le64(arg_data, 1) == seqNum && le32(arg_data, 9) == len(key) % 4294967296
+//@   check[C09] before call (*WAL).writeRawRecord#1: bstr(arg_data[13:]) == bstr(key[:min(len(key), MaxRecordSize - 13)])
+//@   check[C09] before call (*WAL).writeRawRecord#3: arg_recordType == RecordTypeMiddle && len(arg_data) == MaxRecordSize
+//@   check[C09] before call (*WAL).writeRawRecord#2: arg_recordType == RecordTypeLast && 0 < len(arg_data) && len(arg_data) <= MaxRecordSize
+//@   ensures[C09] err == nil ==> walLastType == RecordTypeLast
 //@   ensures[C06] err != ErrWALRotating && err != ErrWALClosed && err != ErrInvalidOpType && err != ErrSequenceOverflow
+//@ loop (*WAL).writeFragmentedRecord#1
+//@   invariant[C09] len(remaining) > 0
+// One physical record at offset o of a byte stream: crc32(payload) | len(2) | type(1) | payload.
+//@ predicate RecordAt(b map[int]int, o int, typ uint8, d []byte) = b[o] + 256*b[o+1] + 65536*b[o+2] + 16777216*b[o+3] == crc32(bstr(d)) && b[o+4] + 256*b[o+5] == len(d) && b[o+6] == typ && (forall j int :: 0 <= j && j < len(d) ==> b[o+7+j] == d[j])
 //@ func (*WAL).writeRawRecord
-//@   modifies w.bytesWritten, w.batchByteSize
+//@   modifies w.bytesWritten, w.batchByteSize, wrlen, wrbytes, walLastType
+//@   ensures[C09] err == nil ==> len(data) <= MaxRecordSize && wrlen[w.writer] == old(wrlen[w.writer]) + 7 + len(data) && RecordAt(wrbytes[w.writer], old(wrlen[w.writer]), recordType, data)
+//@   ensures[C09] forall j int :: j < old(wrlen[w.writer]) ==> wrbytes[w.writer][j] == old(wrbytes[w.writer][j])
+//@   ensures[C09] err == nil ==> walLastType == recordType
+//@   ensures[C09] err != nil ==> walLastType == old(walLastType)
+//@   ghost exit: walLastType = ite(err == nil, recordType, walLastType)
 //@   ensures[C06] err != ErrWALRotating && err != ErrWALClosed && err != ErrInvalidOpType && err != ErrSequenceOverflow
 //@ func (*WAL).writeRecordData
-//@   modifies w.bytesWritten, w.batchByteSize
+//@   modifies w.bytesWritten, w.batchByteSize, wrlen, wrbytes
+//@   ensures[C09] err == nil ==> wrlen[w.writer] == old(wrlen[w.writer]) + len(header) + len(payload)
+//@   ensures[C09] err == nil ==> (forall j int :: 0 <= j && j < len(header) ==> wrbytes[w.writer][old(wrlen[w.writer]) + j] == header[j])
+//@   ensures[C09] err == nil ==> (forall j int :: 0 <= j && j < len(payload) ==> wrbytes[w.writer][old(wrlen[w.writer]) + len(header) + j] == payload[j])
+//@   ensures[C09] forall j int :: j < old(wrlen[w.writer]) ==> wrbytes[w.writer][j] == old(wrbytes[w.writer][j])
 //@   ensures[C06] err != ErrWALRotating && err != ErrWALClosed && err != ErrInvalidOpType && err != ErrSequenceOverflow
 
 //@ func (*WAL).UpdateNextSequence
@@ -61,3 +90,158 @@ package wal
 //@ func (*WAL).GetNextSequence
 //@   modifies nothing
 //@   ensures[C08] result == w.nextSequence
+
+// ---------------------------------------------------------------------------------------------------------------
+// C09 / C10: the log codec.  The byte stream behind a Reader is the ghost model of /verif/specs/io.kvs
+// (rdbytes / rdlen / rdpos keyed by the *bufio.Reader).  All contracts hold for ARBITRARY stream bytes: there is no
+// well-formedness precondition, so the safety obligations (index, slice, make, nil) are the no-panic half of C10.
+
+//@ pure func sle16(r *bufio.Reader, i int) int = rdbytes[r][i] + 256*rdbytes[r][i+1]
+//@ pure func sle32(r *bufio.Reader, i int) int = rdbytes[r][i] + 256*rdbytes[r][i+1] + 65536*rdbytes[r][i+2] + 16777216*rdbytes[r][i+3]
+//@ pure func le32(d []byte, i int) int = d[i] + 256*d[i+1] + 65536*d[i+2] + 16777216*d[i+3]
+//@ pure func le64(d []byte, i int) int = d[i] + 256*d[i+1] + 65536*d[i+2] + 16777216*d[i+3] + 4294967296*d[i+4] + 1099511627776*d[i+5] + 281474976710656*d[i+6] + 72057594037927936*d[i+7]
+//@ predicate TornErr(e error) = e == io.ErrUnexpectedEOF || errors.Is(e, io.ErrUnexpectedEOF)
+//@ predicate DamageErr(e error) = errors.Is(e, ErrCorruptRecord) || errors.Is(e, ErrInvalidRecordType) || errors.Is(e, ErrInvalidOpType)
+
+// One physical record: crc(4) len(2) type(1) payload(len).  A stream that ends inside the record is reported as
+// io.EOF / io.ErrUnexpectedEOF with the stream exhausted; a checksum or type error is reported only for a complete header.
+//@ func (*Reader).readRecord
+//@   safety[C10]
+//@   requires r != nil && r.reader != nil
+//@   modifies rdpos
+//@   ensures[C10] err != nil ==> result0 == nil
+//@   ensures[C10] err == nil ==> result0 != nil && fresh(result0) && 1 <= result0.recordType && result0.recordType <= 4 && len(result0.data) <= 65535
+//@   ensures[C10] err == nil || err == io.EOF || err == io.ErrUnexpectedEOF || ((errors.Is(err, ErrCorruptRecord) || errors.Is(err, ErrInvalidRecordType)) && !TornErr(err) && err != io.EOF)
+//@   ensures[C10] old(rdpos[r.reader]) <= rdpos[r.reader] && rdpos[r.reader] <= rdlen[r.reader]
+//@   ensures[C10] (err == io.EOF || err == io.ErrUnexpectedEOF) ==> rdpos[r.reader] == rdlen[r.reader]
+//@   ensures[C10] rdlen[r.reader] - old(rdpos[r.reader]) < 7 ==> err == io.EOF || err == io.ErrUnexpectedEOF
+//@   ensures[C10] err == io.EOF ==> rdlen[r.reader] == old(rdpos[r.reader]) || rdlen[r.reader] == old(rdpos[r.reader]) + 7
+//@   ensures[C09,C10] err == nil ==> rdpos[r.reader] == old(rdpos[r.reader]) + 7 + len(result0.data)
+//@   ensures[C09,C10] err == nil ==> RecordAt(rdbytes[r.reader], old(rdpos[r.reader]), result0.recordType, result0.data)
+//@   ensures[C09] rdlen[r.reader] - old(rdpos[r.reader]) >= 7 && rdlen[r.reader] - old(rdpos[r.reader]) >= 7 + sle16(r.reader, old(rdpos[r.reader])+4) && 1 <= rdbytes[r.reader][old(rdpos[r.reader])+6] && rdbytes[r.reader][old(rdpos[r.reader])+6] <= 4 && crc32(sbs(r.reader, old(rdpos[r.reader])+7, sle16(r.reader, old(rdpos[r.reader])+4))) == sle32(r.reader, old(rdpos[r.reader])) ==> err == nil
+//@   ensures[C10] rdpos == upd(old(rdpos), r.reader, rdpos[r.reader])
+
+// Entry payload: op(1) seq(8) keylen(4) key [vallen(4) value].  parseEntryData accepts exactly the well-formed payloads
+// (trailing bytes are ignored) and returns exactly the fields stored in them: nothing is invented (C10) and an encoded
+// entry decodes to itself (C09, together with the writer's layout obligation below).
+//@ predicate EntryOK(d []byte) = len(d) >= 13 && (d[0] == OpTypePut || d[0] == OpTypeDelete || d[0] == OpTypeMerge) && 13 + le32(d, 9) <= len(d) && (d[0] != OpTypeDelete ==> 17 + le32(d, 9) <= len(d) && 17 + le32(d, 9) + le32(d, 13 + le32(d, 9)) <= len(d))
+//@ lemma[C09] entry_roundtrip: forall d []byte, t uint8, seq uint64, k []byte, v []byte :: EntryLayout(d, t, seq, k, v) && (t == OpTypePut || t == OpTypeDelete || t == OpTypeMerge) ==> EntryOK(d) && d[0] == t && le64(d, 1) == seq && le32(d, 9) == len(k) && bstr(d[13:13+le32(d, 9)]) == bstr(k) && (t != OpTypeDelete ==> le32(d, 13+le32(d, 9)) == len(v) && bstr(d[17+le32(d, 9) : 17+le32(d, 9)+le32(d, 13+le32(d, 9))]) == bstr(v))
+//@ func (*Reader).parseEntryData
+//@   safety[C10]
+//@   modifies nothing
+//@   ensures[C10] err != nil ==> result0 == nil && (errors.Is(err, ErrCorruptRecord) || errors.Is(err, ErrInvalidOpType)) && !TornErr(err) && err != io.EOF
+//@   ensures[C09,C10] (err == nil) <==> EntryOK(data)
+//@   ensures[C09,C10] err == nil ==> result0 != nil && fresh(result0) && result0.Type == data[0] && result0.SequenceNumber == le64(data, 1) && len(result0.Key) == le32(data, 9) && bstr(result0.Key) == bstr(data[13:13+le32(data, 9)])
+//@   ensures[C09,C10] err == nil && data[0] == OpTypeDelete ==> result0.Value == nil
+//@   ensures[C09,C10] err == nil && data[0] != OpTypeDelete ==> result0.Value != nil && len(result0.Value) == le32(data, 13+le32(data, 9)) && bstr(result0.Value) == bstr(data[17+le32(data, 9) : 17+le32(data, 9)+le32(data, 13+le32(data, 9))])
+
+// A logical entry: one FULL record, or FIRST MIDDLE* LAST.  Error classes: clean end (io.EOF), torn tail (the stream
+// ended inside an entry: io.ErrUnexpectedEOF, only ever reported with the stream exhausted), damage (everything else).
+//@ func (*Reader).ReadEntry
+//@   safety[C10]
+//@   requires ReaderInv(r)
+//@   ensures[C10] StreamInv(r)
+//@   ensures[C10] FragsSmall(r)
+//@   ensures[C10] err != nil ==> result0 == nil
+//@   ensures[C10] err == nil ==> result0 != nil
+//@   ensures[C10] err == nil || err == io.EOF || TornErr(err) || DamageErr(err)
+//@   ensures[C10] (err == io.EOF || TornErr(err)) ==> rdpos[r.reader] == rdlen[r.reader]
+//@   ensures[C10] rdpos == upd(old(rdpos), r.reader, rdpos[r.reader]) && rdpos[r.reader] >= old(rdpos[r.reader])
+//@ loop (*Reader).ReadEntry#1
+//@   invariant[C10] rdpos == upd(old(rdpos), r.reader, rdpos[r.reader]) && rdpos[r.reader] >= old(rdpos[r.reader])
+//@   invariant[C10] StreamInv(r)
+//@   invariant[C10] FragsSmall(r)
+
+// Total size of the first i fragments (recursive spec function; monotone in i by induction).
+//@ pure rec func fsum(s [][]byte, i int) int = ite(i <= 0, 0, fsum(s, i-1) + max(len(s[i-1]), 0))
+//@ lemma fsum_mono induct j from i: forall s [][]byte, i int, j int :: 0 <= i && i <= j ==> fsum(s, i) <= fsum(s, j)
+// Reader invariant: every buffered fragment came from a record (at most 65535 payload bytes, at least 7 stream bytes
+// each), so the total buffered size is bounded by the stream length (A-IO: a log file is shorter than 2^48 bytes) and the
+// size computation of processFragments cannot overflow.
+//@ predicate StreamInv(r *Reader) = r != nil && r.reader != nil && 0 <= rdpos[r.reader] && rdpos[r.reader] <= rdlen[r.reader] && rdlen[r.reader] <= 281474976710656 && 7*len(r.fragments) <= rdpos[r.reader]
+//@ predicate FragsSmall(r *Reader) = forall k int :: 0 <= k && k < len(r.fragments) ==> len(r.fragments[k]) <= 65535
+//@ predicate ReaderInv(r *Reader) = StreamInv(r) && FragsSmall(r)
+//@ func (*Reader).processFragments
+//@   safety[C10]
+//@   uses fsum_mono
+//@   requires r != nil && 7*len(r.fragments) <= 281474976710656 && (forall k int :: 0 <= k && k < len(r.fragments) ==> len(r.fragments[k]) <= 65535)
+//@   modifies r.fragments
+//@   ensures[C10] err != nil ==> result0 == nil && (errors.Is(err, ErrCorruptRecord) || errors.Is(err, ErrInvalidOpType)) && !TornErr(err) && err != io.EOF
+//@   ensures[C10] err == nil ==> result0 != nil && fresh(result0)
+//@   ensures[C10] len(r.fragments) == 0
+
+// File and directory replay.  walDamage counts the reads that reported damage (any ReadEntry error other than a clean end
+// or a torn tail) and the files that could not be opened; walHandlerErrs counts the failures of the caller's handler.
+// C10: a log whose only defect is that it ends early is never an error - replay fails only if damage was seen or the
+// handler failed.
+//@ ghost global walDamage int
+//@ ghost global walHandlerErrs int
+//@ func OpenReader
+//@   ensures[C10] err != nil ==> result0 == nil
+//@   ensures[C10] err == nil ==> result0 != nil && fresh(result0) && ReaderInv(result0) && len(result0.fragments) == 0
+// The handler is the caller's: nothing is assumed about it except that it does not touch the reader's stream.
+//@ func EntryHandler.call
+//@   ensures rdpos == old(rdpos)
+//@ func ReplayWALFile
+//@   safety[C10]
+//@   ghost after call OpenReader#1: walDamage = walDamage + ite(err != nil, 1, 0)
+//@   ghost after call (*Reader).ReadEntry#1: walDamage = walDamage + ite(err != nil && err != io.EOF && !TornErr(err), 1, 0)
+//@   ghost after call EntryHandler.call#1: walHandlerErrs = walHandlerErrs + ite(result != nil, 1, 0)
+//@   ensures[C10] walDamage >= old(walDamage) && walHandlerErrs >= old(walHandlerErrs)
+//@   ensures[C10] err == nil ==> result0 != nil
+//@   ensures[C10] err != nil ==> walDamage > old(walDamage) || walHandlerErrs > old(walHandlerErrs)
+//@ loop ReplayWALFile#1
+//@   invariant[C10] walDamage >= old(walDamage) && walHandlerErrs >= old(walHandlerErrs) && ReaderInv(reader)
+//@   invariant[C10] stats != nil
+
+// A log file is reused for appending only if a complete scan of it found neither damage nor a torn tail
+// (walScanBad counts the scans' reads that ended with anything but a clean end): entries appended behind an incomplete
+// record could not be read back (C10: writes acknowledged after a recovery are themselves recoverable).
+//@ ghost global walScanBad int
+//@ ghost global walScans int
+//@ func endsCleanly
+//@   safety[C10]
+//@   ghost entry: walScans = walScans + 1
+//@   ghost after call (*Reader).ReadEntry#1: walScanBad = walScanBad + ite(err != nil && err != io.EOF, 1, 0)
+//@   ensures[C10] walScans == old(walScans) + 1 && walScanBad >= old(walScanBad)
+//@   ensures[C10] result ==> walScanBad == old(walScanBad)
+//@ loop endsCleanly#1
+//@   invariant[C10] walScanBad == old(walScanBad) && walScans == old(walScans) + 1 && ReaderInv(reader)
+
+//@ func recoverFromCorruption
+//@   safety[C10]
+//@   requires ReaderInv(reader)
+//@   ensures[C10] ReaderInv(reader)
+//@ loop recoverFromCorruption#1
+//@   invariant[C10] ReaderInv(reader)
+//@ func getEntryCount
+//@   safety[C10]
+//@ loop getEntryCount#1
+//@   invariant[C10] ReaderInv(reader)
+//@ func FindWALFiles
+//@   ensures[C10] err != nil ==> result0 == nil
+//@ func ReplayWALDir
+//@   safety[C10]
+//@   ensures[C10] walDamage >= old(walDamage) && walHandlerErrs >= old(walHandlerErrs)
+//@   ghost after call FindWALFiles#1: walDamage = walDamage + ite(err != nil, 1, 0)
+//@   ensures[C10] err != nil ==> walDamage > old(walDamage) || walHandlerErrs > old(walHandlerErrs)
+//@ loop ReplayWALDir#1
+//@   invariant[C10] walDamage >= old(walDamage) && walHandlerErrs >= old(walHandlerErrs) && totalStats != nil
+//@   invariant[C10] lastErr != nil ==> walDamage > old(walDamage) || walHandlerErrs > old(walHandlerErrs)
+//@ loop (*Reader).processFragments#1
+//@   invariant[C10] totalSize == fsum(r.fragments, idx) && 0 <= totalSize && totalSize <= 65535 * idx
+//@ loop (*Reader).processFragments#2
+//@   invariant[C10] offset == fsum(r.fragments, idx) && len(combined) == fsum(r.fragments, len(r.fragments))
+
+// C09: reading from a sequence number returns exactly the entries of the file at or after it, in file order: every
+// successfully read entry with SequenceNumber >= minSequence is appended (walSel counts them), nothing else is.
+//@ ghost global walSel int
+//@ func (*WAL).getEntriesFromFile
+//@   safety[C10]
+//@   ghost entry: walSel = 0
+//@   ghost after call (*Reader).ReadEntry#1: walSel = walSel + ite(err == nil && result0.SequenceNumber >= minSequence, 1, 0)
+//@   ensures[C09] len(result0) == walSel
+//@   ensures[C09] forall i int :: 0 <= i && i < len(result0) ==> result0[i] != nil && result0[i].SequenceNumber >= minSequence
+//@ loop (*WAL).getEntriesFromFile#1
+//@   invariant[C09] ReaderInv(reader) && len(entries) == walSel
+//@   invariant[C09] forall i int :: 0 <= i && i < len(entries) ==> entries[i] != nil && entries[i].SequenceNumber >= minSequence
